@@ -18,7 +18,7 @@ LINES = {'EHLO': b'EHLO c.example\r\n', 'HELO': b'HELO c\r\n', 'MAIL': b'MAIL FR
 KIND = {'BOGUS': 'UNKNOWN'}
 
 
-def scenario(prefix, trickle, rnd, step):
+def scenario(prefix, trickle, rnd, step, glue=b''):
     """trickle: list of byte strings sent `step` seconds apart after the prefix; then silence"""
     s = sdrv.Session({'command_timeout': CT, 'data_timeout': DT})
     s.ev.insert(0, {'t': 'cmd', 'kind': 'BANNER', 'wf': 1, 'addr': 0, 'content': 0, 'now': 1000})
@@ -38,7 +38,7 @@ def scenario(prefix, trickle, rnd, step):
         else:
             line = LINES[sym]
             addr = s.aid(line[line.index(b'<') + 1:line.index(b'>')].decode()) if sym in ('MAIL', 'RCPT') else 0
-            s.send(line, kind=KIND.get(sym, sym), wf=1, addr=addr, content=0)
+            s.send(line + (glue if sym == prefix[-1] and sym != 'DATA' else b''), kind=KIND.get(sym, sym), wf=1, addr=addr, content=0)
             if sym == 'DATA':
                 data_start = t
         last_cmd_done = t
@@ -87,10 +87,13 @@ def main():
                     continue
                 if quick and step == 4 and rnd.random() < 0.5:
                     continue
-                ev, deadline, indata = scenario(prefix, trickle, rnd, step)
+                glue = b''
+                if prefix and prefix[-1] not in ('DATA', 'content') and idx % 3 == 0:
+                    glue = rnd.choice([b'NOO', b'MAIL FROM:<x', b'R', b'QUIT\r'])     # start of the next line in the same segment
+                ev, deadline, indata = scenario(prefix, trickle, rnd, step, glue)
                 stats['executions'] += 1
                 f.write(json.dumps({'id': shard + n * nshards, 'cls': 'stall-data' if indata else 'stall-cmd',
-                                    'cfg': {'stall': 1, 'deadline': deadline, 'prefix': prefix, 'step': step, 'npieces': len(trickle)},
+                                    'cfg': {'stall': 1, 'deadline': deadline, 'prefix': prefix, 'step': step, 'npieces': len(trickle) + (1 if glue else 0)},
                                     'ev': ev}, separators=(',', ':')) + '\n')
                 n += 1
     f.write(json.dumps({'summary': stats}) + '\n')
